@@ -74,6 +74,9 @@ def gen_(rng, i, tier):
         seen, tt = set(), []
         for k, v in t:
             kk = tuple(k) if rawkeys else tuple(sorted(set(k), key=C.enc))
+            if rawkeys and kk and rng.random() < 0.4:
+                x3 = rng.choice(kk)                 # one label three times: x*x*x = x, z*z*z = z
+                kk = kk + (x3, x3)
             if quad and len(kk) > 2:
                 continue
             if kk not in seen:
